@@ -3,6 +3,7 @@ import GqlVerif.Driver.Loop
 import GqlVerif.Model.Valid
 import GqlVerif.Model.Serde
 import GqlVerif.Model.EnumSpec
+import GqlVerif.Model.Scope
 open GqlVerif
 
 def errSexp : Err → Sexp
@@ -85,6 +86,14 @@ def handle (req : Sexp) : Sexp :=
     match Item.ofSexp item with
     | some (.gqlEnum _ _ _ vs ser de) => .list [.atom "ok", Sexp.mkBool (EnumSpec.tablesWf vs ser de)]
     | _ => bad "enum-wf"
+  | .list [.atom "scope", .list items, supplied] =>
+    -- C02: the scope discipline evaluated on an (extracted) item list
+    match items.mapM Item.ofSexp, strsOfSexp supplied with
+    | some items, some supplied =>
+      let r := Scope.report items supplied
+      .list [.atom "scope", Sexp.mkBool (Scope.wellScoped items supplied), strsSexp r.undefined,
+             strsSexp r.duplicateDefs, strsSexp r.duplicateMembers, strsSexp r.serdeless]
+    | _, _ => bad "scope"
   | .list [.atom "gen", src, doc, .str text, opts, cases] =>
     match Decode.schemaSrc src, Decode.qdoc doc, Decode.options opts, Decode.caseFns cases with
     | some s, some d, some o, some cs =>
